@@ -880,3 +880,5 @@ func checkConc(c ConcCase) (r pbt.Result) {
 }
 
 func TestConcurrentCallers(t *testing.T) { pbt.Run(t, genConc, checkConc) }
+
+func FuzzRoundTripHistories(f *testing.F) { pbt.Fuzz(f, gen, check) }
